@@ -80,6 +80,15 @@ class SimSpec(vlib.Spec):
                 if ql <= 2:
                     tops.append({"kind": "top_merge", "q": q, "q2": [7 * (i + 1) for i in range(n2)]})
         tops.append({"kind": "top_fold", "q": [1, 1, 2], "tr": None})
+        ktops = []
+        for kind in ("top_keyed_order", "top_partial"):
+            for m in ([], [[1, [10]]], [[1, [10, 11]], [2, [20]]], [[1, [10, 11, 12]], [2, []], [7, [70, 71]]],
+                      [[3, [1, 1]], [100, [5]], [65536, [6, 7]]]):
+                ktops.append({"kind": kind, "m": m, "tr": None})
+        korders = self.probe_orders(ktops)
+        for h, o in zip(ktops, korders):
+            d = dict((k, q) for k, q in h["m"])
+            tops.append(dict(h, m=[[k, d[k]] for k in (o if o is not None else d)]))
         for h in tops:
             for force in (False, True):
                 scripts = sim.top_scripts(h, force, cap)
@@ -244,7 +253,7 @@ class C36(SimSpec):
                 "C36_pass_latest", "C36_ksingle_per_key", "C36_run_hooks_releases_new",
                 "C36_can_run_iff", "C36_run_hooks_no_panic", "C36_top_order_sound",
                 "C36_top_fold_sound", "C36_top_merge_sound", "C36_inline_shuffle_perm",
-                "C36_inline_merge_interleaves"]
+                "C36_inline_merge_interleaves", "C36_top_keyed_sound"]
     trusted_base = ["coqc 8.16.1 kernel (vm_compute used for case evaluation only)",
                     "hand-written Gallina model coq/theories/Sim/Model.v of sim/runtime.rs hooks and compiled.rs run_hooks",
                     "correspondence harness harness/h_sim (scripted bolero DynDriver) + tools/sim.py",
@@ -256,7 +265,7 @@ class C36(SimSpec):
         "verif_can_run re-states SimTick::can_run on a bare hook list (SimTick needs a DFIR); a change to can_run itself is not seen",
         "tick-level property assumes idle hooks, can_run, and (keyed singleton) that a key with an empty queue was released before",
         "run_hooks is also driven on ticks that can_run reports NOT runnable (the scheduler never does): the explicit 'No input and no last released item' panics there are modelled and compared, not property failures",
-        "unkeyed TopLevel hooks (order, fold, merge_ordered) and inline hooks (StreamOrder, MergeOrdered) are modelled; the keyed TopLevel/inline kinds (6 of 18 hook kinds) are not",
+        "TopLevel hooks order, fold, merge_ordered, keyed order, partially-ordered and inline hooks StreamOrder, MergeOrdered are modelled; TopLevelKeyedMergeOrdered and the inline KeyedStreamOrder, PartiallyOrdered, KeyedMergeOrdered (4 of 18 hook kinds) are not",
     ]
     rule = ("hook or tick (list of hooks under run_hooks) + rounds of (push, force, decision script); exhaustive: every "
             "decision string of every small configuration (queue length <= 3 quick / 4 thorough) per hook kind and of "
